@@ -185,10 +185,17 @@ def run(ctx):
     # composition stage (coq/Img): sqfs_serialize_fstree against Img.TreeModel.serialize_fstree, read-back oracle
     h_img = B.compile_harness(asan, [os.path.join(HERE, "h_img.c")], "c01_h_img", extra=inc)
     drv_img = core.build_model_driver("C01img", "ExtractImg.v", os.path.join(HERE, "img_driver.ml"))
+    # reader leg (coq/ImgReader): the C05 reader model on the whole image the library wrote
+    drv_rd = core.build_model_driver("C01reader", "ExtractC01Reader.v", os.path.join(HERE, "reader_driver.ml"))
     # lib/fstree stage (coq/ImgPost): fstree_add_generic + fstree_post_process against C11.fs_add / post_process + to_img
     drv_imgpost = core.build_model_driver("C01imgpost", "ExtractImgPost.v", os.path.join(HERE, "imgpost_driver.ml"))
     ctx.trusted += ["props/C01/imgpost_driver.ml, imgpost_cases.py, imgpost_tie.py (add-operation lists -> extracted C11 fs_add/post_process "
                     "+ ImgPost.Bridge.to_img, compared exactly with h_img.c's dump of fs->inodes)"]
+    ctx.trusted += ["props/C01/reader_driver.ml (whole image bytes -> extracted ReadImage.read_image_c05, listing of the tree), the W "
+                    "command of h_img.c (sqfs_super_init / sqfs_id_table_write / sqfs_super_write around sqfs_serialize_fstree, the toy "
+                    "decompressor, the listing of libsquashfs's own sqfs_dir_reader_get_full_hierarchy result)",
+                    "coq/C05: the model of the libsquashfs readers is tied to the library by C05's / C10's checks; here it is run on "
+                    "serializer output only"]
     ctx.trusted += ["props/C01/h_img.c (fstree built with fstree_add_generic + fstree_post_process, dumped as the model's input; "
                     "in-memory sqfs_file_t; toy compressors), props/C01/img_driver.ml, img_cases.py, img_tie.py",
                     "coq/Img/TreeModel.v: hand-written model of serialize_fstree.c and the reader specification (read_tree) "
@@ -213,7 +220,7 @@ def run(ctx):
         f_idt = ex.submit(check_idt, ctx, h_inode, drv)
         f_xattr = ex.submit(TC.check_xattr_tie, ctx, h_xattr, drv, random.Random(ctx.seed * 7919 + 3), quick, ENV) if h_xattr else None
         f_tool = ex.submit(TC.tool_oracle, ctx, asan, plain, random.Random(ctx.seed * 7919 + 4), quick, ENV)
-        f_img = ex.submit(IMG.stage, ctx, h_img, drv_img, random.Random(ctx.seed * 7919 + 5), quick)
+        f_img = ex.submit(IMG.stage, ctx, h_img, drv_img, random.Random(ctx.seed * 7919 + 5), quick, drv_rd)
         stats, tb, pb, types_seen = f_inode.result()
         tie_bad += tb
         prop_bad += pb
@@ -231,9 +238,9 @@ def run(ctx):
     ctx.log("composition stage (serialize_fstree): %s" % istats)
     ctx.log("lib/fstree stage (add operations -> post-processed tree): %s" % pstats)
 
-    evals = pstats["cases"] + istats["cases"] + stats["enc"] + stats["dec"] + stats["mut"] + stats["ser"] + nidt + (xstats or {}).get("cases", 0) + tstats["images"]
+    evals = pstats["cases"] + istats["cases"] + istats.get("whole_images", 0) + stats["enc"] + stats["dec"] + stats["mut"] + stats["ser"] + nidt + (xstats or {}).get("cases", 0) + tstats["images"]
     ctx.coverage["evaluations"] = evals
-    ctx.coverage["distinct_nontrivial"] = pstats["built"] + istats["impl_readback_ok"] + stats["enc_wf"] + stats["dec_ok"] + stats["ser_ok"] + (xstats or {}).get("nontrivial", 0) + tstats["images_ok"]
+    ctx.coverage["distinct_nontrivial"] = pstats["built"] + istats["impl_readback_ok"] + istats.get("c05_model_ok", 0) + stats["enc_wf"] + stats["dec_ok"] + stats["ser_ok"] + (xstats or {}).get("nontrivial", 0) + tstats["images_ok"]
     ctx.coverage["traces_validated_against_impl"] = evals
     ctx.coverage["exhaustive"] = False
     ctx.coverage["rule"] = (
@@ -247,7 +254,9 @@ def run(ctx):
         "C output through the reader specification): generated fstrees with every inode type, directories of 0/1/254..258/300/511..513 "
         "entries, listings ending at 8192 -20..+2 entries' worth around the metadata block border, 280..450 inodes (several inode "
         "blocks), nesting 10..90, hard links incl. to later-numbered files and link chains, names 1..1000 and 65536/65537 bytes, "
-        "long targets / block lists, 300..1000 owner ids, toy compressors store / RLE / zero-RLE / contract-breaking; lib/fstree "
+        "long targets / block lists, 300..1000 owner ids, toy compressors store / RLE / zero-RLE / contract-breaking; reader leg: every "
+        "such tree also written as a whole image by the library (super block, inode / directory / id table) and read by the extracted C05 "
+        "reader model and by libsquashfs, both compared field by field with the input tree; lib/fstree "
         "(fstree_add_generic + fstree_post_process vs C11 model + ImgPost.to_img, exact dump of fs->inodes, verdicts on failure): "
         "shuffled add lists over a collision-prone name pool (prefix siblings, bytes >= 0x80), implicit directories made explicit, "
         "hard link chains / several links per target / links before and after their target and across directories, unclean target "
@@ -304,9 +313,11 @@ def replay(ctx, asan, plain, h_inode, h_xattr, drv):
     if kind == "img-lines":
         h_img = B.compile_harness(asan, [os.path.join(HERE, "h_img.c")], "c01_h_img", extra=["-I" + HERE])
         drv_img = core.build_model_driver("C01img", "ExtractImg.v", os.path.join(HERE, "img_driver.ml"))
-        res = IMG.run_cases(h_img, drv_img, [("replay", l) for l in r.get("lines", [])], IMG.RD_BUDGET["thorough"])
+        drv_rd = core.build_model_driver("C01reader", "ExtractC01Reader.v", os.path.join(HERE, "reader_driver.ml"))
+        res = IMG.run_cases(h_img, drv_img, [("replay", l) for l in r.get("lines", [])], IMG.RD_BUDGET["thorough"], drv_rd=drv_rd)
         for x in res:
-            ctx.log("replay: impl=%s\n   model=%s\n   readback=%s" % ((x["impl"] or "")[:300], (x["model"] or "")[:300], x["rd"]))
+            ctx.log("replay: impl=%s\n   model=%s\n   readback=%s\n   reader model on the whole image=%s  libsquashfs=%s"
+                    % ((x["impl"] or "")[:300], (x["model"] or "")[:300], x["rd"], x["c05"], (x["real"] or "")[:80]))
         IMG.evaluate(ctx, res)
         ctx.coverage["evaluations"] = len(res)
         return
@@ -332,3 +343,4 @@ def setup():
     core.build_model_driver("C01", "ExtractC01.v", os.path.join(HERE, "driver.ml"))
     core.build_model_driver("C01img", "ExtractImg.v", os.path.join(HERE, "img_driver.ml"))
     core.build_model_driver("C01imgpost", "ExtractImgPost.v", os.path.join(HERE, "imgpost_driver.ml"))
+    core.build_model_driver("C01reader", "ExtractC01Reader.v", os.path.join(HERE, "reader_driver.ml"))
